@@ -628,5 +628,10 @@ func retryDelay(attempt int, retry RetryConfig) time.Duration {
 			delay = 0
 		}
 	}
+	// Saturate: a float beyond the int64 range would convert to a negative
+	// Duration, which Nack clamps to an immediate retry.
+	if delay >= float64(math.MaxInt64) {
+		return time.Duration(math.MaxInt64)
+	}
 	return time.Duration(delay)
 }
